@@ -56,15 +56,53 @@ def module_classes():
     return out
 
 
+def brute(obj, i):
+    """the component get_by_id has to return, by a plain scan of the document as it is now (own list members, in order)"""
+    for ms in type(obj).member_data_items_:
+        v = getattr(obj, ms.get_name(), None)
+        if isinstance(v, list):
+            for m in v:
+                if hasattr(m, "id") and m.id == i:
+                    return m
+    return None
+
+
+def mutate(obj, step):
+    lst = getattr(obj, step["member"])
+    if step["op"] == "remove":
+        del lst[step["index"]]
+    elif step["op"] == "rename":
+        lst[step["index"]].id = step["id"]
+    elif step["op"] == "replace":
+        lst[step["index"]] = H.construct(step["tree"])
+    elif step["op"] == "append":
+        lst.append(H.construct(step["tree"]))
+    else:
+        raise ValueError(step["op"])
+
+
 def run_idcase(case, real_stdout):
-    """one document/network and a sequence of get_by_id lookups on it"""
-    res = {"lookups": []}
+    """one document/network and a history of get_by_id look ups and edits on it"""
+    res = {"lookups": [], "states": []}
     obj = H.construct(case["tree"])
     for kv in case.get("set", []):      # raw attribute assignments (values the constructors would not produce)
         setattr(obj, kv[0], kv[1])
     res["obj"] = H.dump(obj)
-    for i in case["ids"]:
-        r = {"wc": obj.warn_count}
+    res["states"].append(res["obj"])
+    steps = case.get("steps") or [{"op": "lookup", "id": i} for i in case["ids"]]
+    for step in steps:
+        if step["op"] != "lookup":
+            mutate(obj, step)
+            res["states"].append(H.dump(obj))
+            res["lookups"].append({"mutated": step["op"], "state": len(res["states"]) - 1})
+            continue
+        i = step["id"]
+        r = {"wc": obj.warn_count, "state": len(res["states"]) - 1}
+        keys_before = set(vars(obj).keys())
+        try:
+            expected = brute(obj, i)
+        except Exception:  # noqa
+            expected = None
         buf = io.StringIO()
         sys.stdout = buf
         try:
@@ -76,6 +114,7 @@ def run_idcase(case, real_stdout):
                 r["found"] = H.dump(x) if hasattr(x, "member_data_items_") else None
                 r["found_id"] = getattr(x, "id", None)
                 r["where"] = H.holds(obj, x)
+                r["is_expected"] = x is expected
         except Exception as e:  # noqa
             r["res"] = 2
             r["exc"] = type(e).__name__ + ": " + str(e)[:160]
@@ -83,6 +122,9 @@ def run_idcase(case, real_stdout):
         text = buf.getvalue()
         r["msg"] = 1 if "asking for an element with no id" in text else 2 if " not found in <" in text else 3 if "Suppressing further warnings" in text else 0
         r["wc_after"] = obj.warn_count
+        r["expected_exists"] = expected is not None
+        r["new_keys"] = sorted(set(vars(obj).keys()) - keys_before - {"warn_count"})
+        r["doc_unchanged"] = H.dump(obj) == res["states"][-1]
         res["lookups"].append(r)
     return res
 
